@@ -32,8 +32,12 @@ var identRe = regexp.MustCompile(`[A-Za-z_][A-Za-z0-9_]*`)
 // shapeText: the expression with every identifier replaced by `_` (so that renaming a variable or a field is not a
 // new site) but literals, operators and the bounds structure kept
 func shapeText(n ast.Node) string {
-	return strings.ReplaceAll(identRe.ReplaceAllString(nodeText(n), "_"), " ", "")
+	return strings.ReplaceAll(identRe.ReplaceAllString(lenAtomRe.ReplaceAllString(nodeText(n), "_"), "_"), " ", "")
 }
+
+// the length of a variable is an atom of a shape, like a variable that holds it (`data[0:len(data)-k]` and
+// `n := len(data); data[0:n-k]` are one site)
+var lenAtomRe = regexp.MustCompile(`\blen\([A-Za-z_][A-Za-z0-9_]*\)`)
 
 func extractC12(o *out) {
 	b := o.w("C12.lean")
@@ -285,32 +289,64 @@ func extractC12(o *out) {
 		constCache[f] = en
 		return en
 	}
+	// units, helpers and who reaches the helpers (x_c12_inline.go)
+	c12Excluded := func(fname string) bool {
+		// request/response *encoders* work on the program's own values, not on attacker input
+		return strings.HasSuffix(fname, ".Encode") || strings.HasPrefix(fname, "Serializer.EncodeDnsRequest") ||
+			fname == "EncodeRequestHeader" || fname == "EncodeUserId" || fname == "randomChars" || strings.HasSuffix(fname, ".writeBool")
+	}
+	c12Fname := func(fd *ast.FuncDecl) string {
+		fname := fd.Name.Name
+		if fd.Recv != nil && len(fd.Recv.List) > 0 {
+			t := fd.Recv.List[0].Type
+			if st, ok := t.(*ast.StarExpr); ok {
+				t = st.X
+			}
+			fname = exprString(t) + "." + fname
+		}
+		return fname
+	}
+	liveReach, exclReach := map[*ast.FuncDecl]bool{}, map[*ast.FuncDecl]bool{}
 	for _, rel := range siteFiles {
-		f := parse(rel)
+		pkg := c12PkgOf(filepath.Dir(rel))
+		var live, excl []*ast.FuncDecl
+		for _, d := range c12Parse(rel).Decls {
+			if fd, ok := d.(*ast.FuncDecl); ok && fd.Body != nil && !c12IsHelper(fd) {
+				if c12Excluded(c12Fname(fd)) {
+					excl = append(excl, fd)
+				} else {
+					live = append(live, fd)
+				}
+			}
+		}
+		for h := range pkg.c12Reach(live) {
+			liveReach[h] = true
+		}
+		for h := range pkg.c12Reach(excl) {
+			exclReach[h] = true
+		}
+	}
+	for _, rel := range siteFiles {
+		f := c12Parse(rel)
+		pkg := c12PkgOf(filepath.Dir(rel))
 		for _, d := range f.Decls {
 			fd, ok := d.(*ast.FuncDecl)
 			if !ok || fd.Body == nil {
 				continue
 			}
-			fname := fd.Name.Name
-			if fd.Recv != nil && len(fd.Recv.List) > 0 {
-				t := fd.Recv.List[0].Type
-				if st, ok := t.(*ast.StarExpr); ok {
-					t = st.X
-				}
-				fname = exprString(t) + "." + fname
+			fname := c12Fname(fd)
+			if c12Excluded(fname) {
+				continue
 			}
-			// request/response *encoders* work on the program's own values, not on attacker input
-			if strings.HasSuffix(fname, ".Encode") || strings.HasPrefix(fname, "Serializer.EncodeDnsRequest") ||
-				fname == "EncodeRequestHeader" || fname == "EncodeUserId" || fname == "randomChars" || strings.HasSuffix(fname, ".writeBool") {
+			if c12IsHelper(fd) && (liveReach[fd] || exclReach[fd]) {
+				// accounted to the units that call it / reached by the excluded encoders only
 				continue
 			}
 			count := map[string]int{}
 			// index / slice sites whose dominating length guards imply that they stay within bounds (x_c12_bounds.go) are
 			// not part of the inventory, wherever they live and however the guard is spelled; they still count as
 			// occurrences so that the fingerprints of the remaining sites are the ones they always had
-			safe := bcDischarge(fd, fileConstsOf(f))
-			add := func(kind string, n ast.Node) {
+			add := func(kind string, n ast.Node, safe map[ast.Node]string) {
 				key := fmt.Sprintf("%s|%s|%s|%s", filepath.Base(rel), fname, kind, shapeText(n))
 				count[key]++
 				full := fmt.Sprintf("%s#%d", key, count[key])
@@ -322,43 +358,85 @@ func extractC12(o *out) {
 				h.Write([]byte(full))
 				sites = append(sites, site{h.Sum32(), full + "   " + nodeText(n)})
 			}
-			typeSwitchAsserts := map[ast.Node]bool{}
-			commaOk := map[ast.Node]bool{}
-			ast.Inspect(fd.Body, func(n ast.Node) bool {
-				switch x := n.(type) {
-				case *ast.TypeSwitchStmt:
-					ast.Inspect(x.Assign, func(m ast.Node) bool {
-						if ta, ok := m.(*ast.TypeAssertExpr); ok {
-							typeSwitchAsserts[ta] = true
+			var walk func(body *ast.FuncDecl, en env, stack []*ast.FuncDecl)
+			walk = func(body *ast.FuncDecl, en env, stack []*ast.FuncDecl) {
+				safe := bcDischarge(body, en)
+				typeSwitchAsserts := map[ast.Node]bool{}
+				commaOk := map[ast.Node]bool{}
+				ast.Inspect(body.Body, func(n ast.Node) bool {
+					switch x := n.(type) {
+					case *ast.TypeSwitchStmt:
+						ast.Inspect(x.Assign, func(m ast.Node) bool {
+							if ta, ok := m.(*ast.TypeAssertExpr); ok {
+								typeSwitchAsserts[ta] = true
+							}
+							return true
+						})
+					case *ast.AssignStmt:
+						if len(x.Lhs) == 2 && len(x.Rhs) == 1 {
+							if ta, ok := x.Rhs[0].(*ast.TypeAssertExpr); ok {
+								commaOk[ta] = true
+							}
 						}
-						return true
-					})
-				case *ast.AssignStmt:
-					if len(x.Lhs) == 2 && len(x.Rhs) == 1 {
-						if ta, ok := x.Rhs[0].(*ast.TypeAssertExpr); ok {
-							commaOk[ta] = true
+					}
+					return true
+				})
+				var visit func(n ast.Node) bool
+				visit = func(n ast.Node) bool {
+					switch x := n.(type) {
+					case *ast.IndexExpr:
+						add("index", x, safe)
+					case *ast.SliceExpr:
+						add("slice", x, safe)
+					case *ast.TypeAssertExpr:
+						if !typeSwitchAsserts[x] && !commaOk[x] {
+							add("assert", x, safe)
+						}
+					case *ast.CallExpr:
+						if sel, ok := x.Fun.(*ast.SelectorExpr); ok && funcFields[sel.Sel.Name] {
+							add("callfield", x.Fun, safe)
+						}
+						// a call into a helper: the helper's sites are sites of this unit, with the arguments in place
+						if h := pkg.c12Callee(x); h != nil && len(stack) < 4 {
+							onStack := false
+							for _, s := range stack {
+								onStack = onStack || s == h
+							}
+							// an argument whose own sites are all within bounds where the call stands is evaluated there, under
+							// the caller's guards; any other argument is written in place of the parameter
+							guarded := func(e ast.Expr) bool {
+								n, all := 0, true
+								ast.Inspect(e, func(m ast.Node) bool {
+									switch m.(type) {
+									case *ast.IndexExpr, *ast.SliceExpr:
+										n++
+										if _, ok := safe[m]; !ok {
+											all = false
+										}
+									}
+									return true
+								})
+								return n > 0 && all
+							}
+							if inst, taken := c12Instantiate(h, x, guarded); inst != nil && !onStack {
+								if sel, ok := x.Fun.(*ast.SelectorExpr); ok && !taken[-1] {
+									ast.Inspect(sel.X, visit)
+								}
+								for i, arg := range x.Args {
+									if !taken[i] {
+										ast.Inspect(arg, visit)
+									}
+								}
+								walk(inst, c12MergeEnv(en, fileConstsOf(pkg.fileOf[h])), append(stack, h))
+								return false
+							}
 						}
 					}
+					return true
 				}
-				return true
-			})
-			ast.Inspect(fd.Body, func(n ast.Node) bool {
-				switch x := n.(type) {
-				case *ast.IndexExpr:
-					add("index", x)
-				case *ast.SliceExpr:
-					add("slice", x)
-				case *ast.TypeAssertExpr:
-					if !typeSwitchAsserts[x] && !commaOk[x] {
-						add("assert", x)
-					}
-				case *ast.CallExpr:
-					if sel, ok := x.Fun.(*ast.SelectorExpr); ok && funcFields[sel.Sel.Name] {
-						add("callfield", x.Fun)
-					}
-				}
-				return true
-			})
+				ast.Inspect(body.Body, visit)
+			}
+			walk(fd, fileConstsOf(f), nil)
 		}
 	}
 	fmt.Fprintf(b, "/-- fingerprints (FNV-32a of `file|func|kind|expression shape#occurrence`) of every index / slice / unchecked type\n    assertion / func-field call in the DNS server handler, the command decoders and the record (un)wrapping -/\n")
@@ -391,16 +469,24 @@ func extractC12(o *out) {
 				fail("handler %s not found in %s", name, file)
 			} else {
 				found := false
+				reqName := ""
+				if ps := fd.Type.Params.List; len(ps) > 0 && len(ps[0].Names) > 0 {
+					reqName = ps[0].Names[0].Name
+				}
 				for k, st := range fd.Body.List {
 					as, isAs := st.(*ast.AssignStmt)
 					if !isAs || len(as.Rhs) != 1 || !strings.HasPrefix(nodeText(as.Rhs[0]), "s.validateAndGetUser(") {
 						continue
 					}
 					found = true
-					if len(as.Lhs) == 2 && exprString(as.Lhs[1]) == "err" && k+1 < len(fd.Body.List) {
-						if is, isIf := fd.Body.List[k+1].(*ast.IfStmt); isIf && is.Init == nil && nodeText(is.Cond) == "err != nil" &&
-							len(is.Body.List) == 1 && nodeText(is.Body.List[0]) == "resp.Err = err" {
-							ok = true
+					if len(as.Lhs) == 2 && k+1 < len(fd.Body.List) {
+						errName := exprString(as.Lhs[1])
+						// the statement that follows tests the error, and what it does with an error is: store it in the
+						// response and -- at most -- hand the response to the encoder (directly or through a helper that
+						// only picks the serializer), without a look at the request
+						if is, isIf := fd.Body.List[k+1].(*ast.IfStmt); isIf && is.Init == nil && errName != "_" &&
+							(nodeText(is.Cond) == errName+" != nil" || nodeText(is.Cond) == "nil != "+errName) {
+							ok = c12RefusalBranch(c12PkgOf(filepath.Dir(file)), is.Body.List, errName, reqName)
 						}
 					}
 					break
@@ -416,4 +502,86 @@ func extractC12(o *out) {
 		}
 		fmt.Fprintf(b, "]\n")
 	}
+}
+
+// c12RefusalBranch: the statements are `<resp>.Err = <err>` (exactly once) followed, at most, by a `return` whose
+// expressions do not mention the request and call nothing but a response encoder -- `….EncodeDnsResponse(…)` or a
+// helper of the package whose body, in turn, consists of nothing but such returns under conditions without calls
+func c12RefusalBranch(pkg *c12Pkg, list []ast.Stmt, errName, reqName string) bool {
+	if len(list) == 0 || len(list) > 2 {
+		return false
+	}
+	as, isAs := list[0].(*ast.AssignStmt)
+	if !isAs || as.Tok != token.ASSIGN || len(as.Lhs) != 1 || len(as.Rhs) != 1 || exprString(as.Rhs[0]) != errName {
+		return false
+	}
+	if sel, isSel := as.Lhs[0].(*ast.SelectorExpr); !isSel || sel.Sel.Name != "Err" {
+		return false
+	} else if _, isId := sel.X.(*ast.Ident); !isId {
+		return false
+	}
+	if len(list) == 1 {
+		return true
+	}
+	ret, isRet := list[1].(*ast.ReturnStmt)
+	if !isRet {
+		return false
+	}
+	mentionsReq := false
+	ast.Inspect(ret, func(n ast.Node) bool {
+		if id, isId := n.(*ast.Ident); isId && reqName != "" && id.Name == reqName {
+			mentionsReq = true
+		}
+		return true
+	})
+	return !mentionsReq && c12OnlyEncodes(pkg, ret, 0)
+}
+
+// c12OnlyEncodes: every call below n is `….EncodeDnsResponse(…)` or a helper that only encodes
+func c12OnlyEncodes(pkg *c12Pkg, n ast.Node, depth int) bool {
+	good := true
+	ast.Inspect(n, func(m ast.Node) bool {
+		call, isCall := m.(*ast.CallExpr)
+		if !isCall {
+			return true
+		}
+		if sel, isSel := call.Fun.(*ast.SelectorExpr); isSel && sel.Sel.Name == "EncodeDnsResponse" {
+			return true
+		}
+		if h := pkg.c12Callee(call); h != nil && depth < 2 && c12EncodeHelper(pkg, h.Body.List, depth+1) {
+			return true
+		}
+		good = false
+		return false
+	})
+	return good
+}
+
+func c12EncodeHelper(pkg *c12Pkg, list []ast.Stmt, depth int) bool {
+	for _, st := range list {
+		switch x := st.(type) {
+		case *ast.ReturnStmt:
+			if !c12OnlyEncodes(pkg, x, depth) {
+				return false
+			}
+		case *ast.IfStmt:
+			if x.Init != nil || bcHasCall(x.Cond) || !c12EncodeHelper(pkg, x.Body.List, depth) {
+				return false
+			}
+			switch e := x.Else.(type) {
+			case nil:
+			case *ast.BlockStmt:
+				if !c12EncodeHelper(pkg, e.List, depth) {
+					return false
+				}
+			default:
+				if !c12EncodeHelper(pkg, []ast.Stmt{e}, depth) {
+					return false
+				}
+			}
+		default:
+			return false
+		}
+	}
+	return true
 }
